@@ -258,6 +258,7 @@ class Item:
         self.contract_lines = None
         self.clauses = {"requires": [], "ensures": [], "invariant": [], "decreases": []}
         self.havoc = []
+        self.rewrites = []
         self.scaffold = 0
         self.carrying = []
         self.trusted = False
@@ -269,7 +270,7 @@ class Item:
         return {
             "id": self.ident, "kind": self.kind, "props": self.props, "src": self.srcfile,
             "src_lines": self.src_lines, "body_sha": self.body_sha, "gen_lines": self.gen_lines,
-            "contract_lines": self.contract_lines, "clauses": self.clauses, "havoc": self.havoc, "scaffold": self.scaffold, "carrying": self.carrying, "name": self.name, "body_text": self.body_text,
+            "contract_lines": self.contract_lines, "clauses": self.clauses, "havoc": self.havoc, "rewrites": self.rewrites, "scaffold": self.scaffold, "carrying": self.carrying, "name": self.name, "body_text": self.body_text,
             "trusted": self.trusted, "elsewhere": self.elsewhere,
         }
 
@@ -346,7 +347,10 @@ def apply_replacements(body, repls, item):
             body = body[:ms[0].start()] + new + body[ms[0].end():]
         else:
             body = body.replace(old, new)
-        item.havoc.append({"old": old, "new": new, "note": note})
+        if note.startswith("std-equivalent"):
+            item.rewrites.append({"old": old, "new": new, "note": note})
+        else:
+            item.havoc.append({"old": old, "new": new, "note": note})
     return body
 
 
